@@ -193,6 +193,25 @@ func (e *PPA) Run(fn *ssa.Function) {
 	e.enter(e.root, nil, fn.Blocks[0], st, nil)
 }
 
+// RunAt enumerates the paths of fn as called at site: its parameters resolve to the operands of the
+// call in the calling function (function values handed over there can be entered).
+func (e *PPA) RunAt(fn *ssa.Function, site ssa.CallInstruction) {
+	e.defaults()
+	e.Paths = nil
+	e.Overflow = false
+	e.Truncated = 0
+	outer := e.newFrame(site.Parent(), nil, nil, nil, nil)
+	var args []RV
+	for _, a := range site.Common().Args {
+		args = append(args, RV{outer, a})
+	}
+	e.root = e.newFrame(fn, nil, args, nil, nil)
+	if len(fn.Blocks) == 0 {
+		return
+	}
+	e.enter(e.root, nil, fn.Blocks[0], newState(), nil)
+}
+
 // RunClosure enumerates the paths of the function literal created by mc; its
 // free variables resolve to the binding values in the enclosing function.
 func (e *PPA) RunClosure(mc *ssa.MakeClosure) { e.RunClosureVia(mc, nil) }
@@ -1276,6 +1295,10 @@ func (e *PPA) callEv(st *State, fr *Frame, in ssa.CallInstruction, prefix string
 		if els, ok := e.sliceLitElems(st, a); ok {
 			if ev.Elems == nil {
 				ev.Elems = map[int][]RV{}
+			}
+			// elements as they resolve on this path (a parameter of an inlined helper is the caller's operand)
+			for k := range els {
+				els[k] = e.Resolve(st, els[k])
 			}
 			ev.Elems[i] = els
 		}
